@@ -589,7 +589,8 @@ def rule_ctor_width(run):
     for br in ast.walk(f.node):
         if isinstance(br, ast.If) and isinstance(br.test, ast.Call) and dotted(br.test.func) == "isinstance" and dotted(br.test.args[0]) == v and dotted(br.test.args[1]) in ("BitVector", "str"):
             kind = dotted(br.test.args[1])
-            copies = [a for a in br.body if isinstance(a, ast.Assign) and dotted(a.targets[0]) == "start_val"]
+            # the branch hands the bits to copy over in a local (whatever it is called)
+            copies = [a for a in br.body if isinstance(a, ast.Assign) and len(a.targets) == 1 and isinstance(a.targets[0], ast.Name) and v in {n_.id for n_ in ast.walk(a.value) if isinstance(n_, ast.Name)}]
             if not copies:
                 continue
             n += 1
